@@ -20,8 +20,9 @@ def stored_file(fid, big=False):
     return ct.mkfile("F%d" % fid, data, 2, 0, 0x0E00 + fid, 0x0E10)
 
 
-def source_file(fid, name=None):
-    return ct.mkfile(name or "S%d" % fid, [(i * 5 + fid) & 255 for i in range(20 + fid % 5)], 2, 0, 0x1000 + fid, 0x1004)
+def source_file(fid, name=None, big=0):
+    n = big if big else 20 + fid % 5
+    return ct.mkfile(name or "S%d" % fid, [(i * 5 + fid) & 255 for i in range(n)], 2, 0, 0x1000 + fid, 0x1004)
 
 
 def materialise(init):
@@ -147,7 +148,7 @@ def replay(args):
             else:
                 ids = list(range(201, 201 + cmd["srcn"]))
                 names = h.get("srcnames") or {}
-                files = [source_file(i, names.get(str(i))) for i in ids]
+                files = [source_file(i, names.get(str(i)), big=h.get("srcbig", 0)) for i in ids]     # srcbig: every source file that long (several granules)
                 for i, f in zip(ids, files):
                     cat[i] = f
                 sp = os.path.join(W, "src%d.%s" % (k, h.get("srckind", "cas")))
